@@ -47,7 +47,7 @@ def check(run, replay=None):
     C.standard_coq_phase(run, CID, gens=("globals",))
     bd = C.build_dir()
     exe = os.path.join(bd, "c12")
-    okc, cmd, log = C.cxx(os.path.join(C.HARNESS, "c12_threads.cpp"), exe, "-O1 -g -w -fsanitize=thread -pthread", hooks=False)
+    okc, cmd, log = C.cxx(os.path.join(C.HARNESS, "c12_threads.cpp"), exe, "-O1 -g -w -DHAVE_BLAS -fsanitize=thread -pthread", libs="-lblas", hooks=False)
     if not okc:
         run.finding("build:c12", "broken-obligation", "thread harness does not compile against the current tree: " + log[-600:], {"cmd": cmd})
         return
